@@ -195,6 +195,9 @@ def mode_job(job):
     if pt is not None:
         fname = pt.filename
         try:
+            if out["removable"] and named:
+                pt.close()           # closing first (also twice) must not take the entitlement away
+                pt.close()
             pt.remove()
             removed = not os.path.exists(fname)
         except FileExistsError:
